@@ -45,16 +45,42 @@ func mailbox.writeFileAtomic(filename, data, perm) (err)
 # SetUnread rewrites the message file named by the X-FilePath header, through the atomic
 # helper only.  (X-FilePath is set by OpenMessage to the path the message was read from:
 # a file, not a directory - call-site assumption.)
+ghost var gMarked bool
+ghost var gFilePath string
 func mailbox.SetUnread(msg, unread) (err)
-  props C11
+  props C11 C10
   requires msg: msg != nil
+  requires fresh: !gMarked
+  # C10: marking unread sets the flag, marking read removes it (a message already read is left
+  # alone), and the file is rewritten from the updated message
+  call fbb.(Header).Get#0 requires reads-the-flag: $1 == "X-Unread"
+  call fbb.(Header).Get#0 set gUnreadFlag := $r0
+  at return#0 requires only-an-already-read-message-is-left-alone: !unread && len(gUnreadFlag) == 0
+  call fbb.(Header).Set requires marks-unread: unread && $1 == "X-Unread" && $2 == "true"
+  call fbb.(Header).Set set gMarked := true
+  call fbb.(Header).Del requires marks-read: !unread && $1 == "X-Unread"
+  call fbb.(Header).Del set gMarked := true
+  call fbb.(*Message).Bytes requires flag-updated-before-serialising: gMarked
+  call fbb.(*Message).Bytes set gSerErr := $r1
+  call fbb.(*Message).Bytes set gSerData := $r0
+  call fbb.(Header).Get#1 requires file-path: $1 == "X-FilePath"
+  call fbb.(Header).Get#1 set gFilePath := $r0
+  call mailbox.writeFileAtomic requires rewrites-the-message-file: gSerErr == nil && same($1, gSerData) && same($0, gFilePath)
+  ensures serialise-error-propagates: gSerErr != nil ==> err != nil
   forbid os.
   forbid ioutil.
   call fbb.(Header).Get#1 assume names-a-file: len($r0) > 0 ==> len(baseName($r0)) > 0
 
+ghost var gSerErr error
+ghost var gSerData []byte
 func mailbox.(*DirHandler).AddOut(h, msg) (err)
   props C11 C10
   requires msg: msg != nil
+  # the file holds the serialised message; a message that cannot be serialised is not stored
+  call fbb.(*Message).Bytes set gSerErr := $r1
+  call fbb.(*Message).Bytes set gSerData := $r0
+  call mailbox.writeFileAtomic requires serialised-message-stored: gSerErr == nil && same($1, gSerData)
+  ensures serialise-error-propagates: gSerErr != nil ==> err != nil
   requires local-mid: SafeName(fbb.(*Message).MID(msg))
   call path.Join requires safe-name: len($0) == 3 && SafeName($0[2])
   forbid os.
@@ -71,6 +97,12 @@ func mailbox.(*DirHandler).ProcessInbound(h, msgs) (err)
   call path.Join#1 requires safe-name: len($0) == 2 && SafeName($0[1])
   call mailbox.writeFileAtomic requires within: confined(h.MBoxPath, $0)
   call mailbox.writeFileAtomic requires name: len(baseName($0)) > 0
+  call fbb.(*Message).Bytes set gSerErr := $r1
+  call fbb.(*Message).Bytes set gSerData := $r0
+  call fbb.(*Message).Bytes requires flagged-unread-before-serialising: gFlagged == $idx + 1
+  call fbb.(Header).Set requires flagged-unread: $1 == "X-Unread" && $2 == "true"
+  call fbb.(Header).Set set gFlagged := $idx + 1
+  call mailbox.writeFileAtomic requires serialised-message-stored: gSerErr == nil && same($1, gSerData)
   call mailbox.writeFileAtomic set gStored := true
   call mailbox.writeFileAtomic set gStoreErr := $r0
   ensures error-propagates: gStoreErr != nil ==> err != nil
@@ -79,6 +111,7 @@ func mailbox.(*DirHandler).ProcessInbound(h, msgs) (err)
   at return#3 requires every-message-stored: $idx0 >= len(msgs)
 
 ghost var gStored bool
+ghost var gFlagged int
 ghost var gStoreErr error
 
 func mailbox.(*DirHandler).GetInboundAnswer(h, p) (a)
@@ -115,21 +148,66 @@ func mailbox.(*DirHandler).SetDeferred(h, MID) ()
   requires prepared: h.deferred != nil
   forbid os.
   forbid ioutil.
-  ensures deferred: haskey(h.deferred, MID)
+  ensures deferred: haskey(h.deferred, MID) && h.deferred[MID]
 
 func mailbox.(*DirHandler).Prepare(h) (err)
   # (C02: a deferral lasts one session, so a repeated exchange offers the message again)
   props C10 C02
   ensures fresh-deferrals: h.deferred != nil && (forall k :: !haskeyid(h.deferred, k))
 
+ghost var gEntryName string
+ghost var gEntryAt int
+ghost var gReadDirErr error
 func mailbox.LoadMessageDir(dirPath) (msgs, err)
-  props C10
+  props C10 C11
+  # hidden files (the temporary files of writeFileAtomic) and directories are never loaded as
+  # messages; every other entry with the message extension is, in directory order
+  call fs.FileInfo.Name#0 set gEntryName := $r0
+  call fs.FileInfo.Name#0 set gEntryAt := $idx + 1
+  call mailbox.OpenMessage requires never-a-hidden-or-temporary-file: gEntryAt == $idx + 1 && gEntryName[0] != '.'
+  call path.Join requires entry-of-this-directory: len($0) == 2 && same($0[0], dirPath)
+  at return#2 requires every-directory-entry-considered: $idx0 >= len(files)
+  call ioutil.ReadDir set gReadDirErr := $r1
+  ensures unreadable-directory-is-an-error: gReadDirErr != nil ==> err != nil
   ensures messages: forall k :: 0 <= k && k < len(msgs) ==> msgs[k] != nil
   loop 0 invariant messages: forall k :: 0 <= k && k < len(msgs) ==> msgs[k] != nil
 
 func mailbox.OpenMessage(path) (m, err)
   props C10
   ensures nonnil: err == nil ==> m != nil
+
+# the four folders exist after a successful setup; the first failure is reported
+ghost var gMkCount int
+ghost var gMkErr error
+func mailbox.ensureDirStructure(mboxPath) (err)
+  props C10 C12
+  requires fresh: gMkCount == 0 && gMkErr == nil
+  call os.MkdirAll requires one-of-the-four-folders: isFolder($0) && same(folderRoot($0), mboxPath)
+  call path.Join#0 requires inbox: len($0) == 2 && $0[1] == DIR_INBOX
+  call path.Join#1 requires outbox: len($0) == 2 && $0[1] == DIR_OUTBOX
+  call path.Join#2 requires sent: len($0) == 2 && $0[1] == DIR_SENT
+  call path.Join#3 requires archive: len($0) == 2 && $0[1] == DIR_ARCHIVE
+  call os.MkdirAll requires stops-at-the-first-failure: gMkErr == nil
+  call os.MkdirAll set gMkCount := gMkCount + 1
+  call os.MkdirAll set gMkErr := $r0
+  ensures all-four-folders: err == nil ==> gMkCount == 4
+  ensures failure-reported: gMkErr != nil ==> err != nil
+
+func mailbox.countFiles(dirPath) (r)
+  props C10
+  call ioutil.ReadDir set gReadDirErr := $r1
+  call ioutil.ReadDir set gDirLen := len($r0)
+  ensures error-is-minus-one: gReadDirErr != nil ==> r == -1
+  ensures count: gReadDirErr == nil ==> r == gDirLen
+ghost var gDirLen int
+
+func mailbox.IsUnread(msg) (r)
+  props C10
+  requires msg: msg != nil
+  call fbb.(Header).Get requires flag: $1 == "X-Unread"
+  call fbb.(Header).Get set gUnreadFlag := $r0
+  ensures def: r <==> streq(gUnreadFlag, "true")
+ghost var gUnreadFlag string
 
 # GetOutbound: every message that is returned went through the removal of the
 # three mailbox-private headers in the same loop iteration
